@@ -27,6 +27,7 @@ EXPLANATION = (
     'and metric batch take their resource from their provider context.')
 EXPLANATION += ' C18.R2 also requires GetSdkDisabled to return the value the (case-insensitive) boolean reader delivered.'
 ROUND2_EXPLANATION = (' C18.R5 also: every path of MetricCollector::Produce that returns the batch passes the resource assignment. C18.R6: the store of true into the boolean reader\'s out-parameter is unreachable once the whole-string case-insensitive comparison with "true" is pinned to unequal (bounded comparisons count only with a constant bound covering the terminator or a length test). C18.R7: region table over (separator position, token length): a token with a separator is stored for every key / value length, one without is not.')
+ROUND2_EXPLANATION += (' C18.R1 also: service.name is present on every path of Resource::Create (the fallback is applied when it is absent or empty). C18.R8: every strto* / stoul conversion of an environment number uses base 10.')
 EXPLANATION += ROUND2_EXPLANATION
 NOT_DECIDED = 'exact values for every string; case-insensitive boolean literals beyond the calls made; std::getline tokenisation.'
 
